@@ -124,8 +124,8 @@ CHECKS["C09"] = dict(
         "monitor, against the model and an independent first-match composition; chain tables regex-extracted from sys.c are cross-checked. "
         "Round 2: ADDRXLAT_CUSTOM methods whose callback finishes in its first step in a space of its own choice / leaves a linear level / fails are "
         "part of the step.c model (walk_custom_eq_spec) and of every generator; get_cache_buf with a re-entrant get-page callback is modelled "
-        "(Kdf.Model.RCache: slot search, LRU recycling incl. the slot in progress, the ptr==NULL guard, the MAX_READ_NESTING bound of the repaired "
-        "code) with read_nesting_bounded / read_hit_no_callback / read_self_fetch_detected and tied through direct reads after 0..6 earlier reads.",
+        "(Kdf.Model.RCache: slot search, LRU recycling of slots that are not being filled (the `filling` mark of the repaired code), the ptr==NULL guard) "
+        "with read_nesting_bounded (<= READ_CACHE_SLOTS) / read_not_stuck / filling_slot_untouched / read_gives_back / read_hit_no_callback / read_self_fetch_detected and tied through direct reads after 0..6 earlier reads.",
    note=TB + "Inside op/conv the 4-slot read cache is treated as transparent for a deterministic non-re-entrant get_page (observed, not proved here); "
         "whole conversions under a re-entrant get-page callback are checked by monitors only (termination, nesting bound, exactly-once, caps); "
         "multi-level custom methods, error messages and unaligned table reads are outside the model.",
